@@ -195,20 +195,38 @@ Definition eval_url_field (cfg : post_config) (expr : string) : option string :=
 Definition message_field (k : post_kind) : string :=
   match k with PLogoutResponse => "SAMLResponse" | _ => "SAMLRequest" end.
 
+(* the configured endpoint of each flow: the form action (SSO URL for AuthnRequests, SLO URL for logout messages) *)
+Definition endpoint (k : post_kind) (cfg : post_config) : string :=
+  match k with PAuthn => pc_sso_url cfg | _ => pc_slo_url cfg end.
+
 (* build*BodyPostFromDocument: [doc_bytes] = doc.WriteToBytes().
-   if relayState != "" { first template, data {URL, SAML..., RelayState} } else { second template, data {URL, SAML...} } *)
+   if relayState != "" { first template, data {URL, SAML..., RelayState} } else { second template, data {URL, SAML...} }
+   Which configuration field is the action, which template goes with which branch and what each field holds are stated
+   HERE by hand and proved equal to the translated function bodies (GenPost.v, P_GenPost.v); the template texts are the
+   generated literals.  (The action expression extracted by gen/main.go — [url_fields_of] / [eval_url_field] — is no
+   longer what the model runs on; P_PostForm.url_field_ok keeps it as a cross-check of that extractor.) *)
 Definition build_post_body (k : post_kind) (cfg : post_config) (relay_state doc_bytes : string) : res string :=
   let encoded := base64_encode doc_bytes in
   let idx := if relay_state =?s "" then 1%nat else 0%nat in
-  match nth_error (templates_of k) idx, nth_error (url_fields_of k) idx with
-  | Some t, Some uf =>
-      match eval_url_field cfg uf with
-      | Some u =>
-          render t ([("URL", u); (message_field k, encoded)] ++
-                    (if relay_state =?s "" then [] else [("RelayState", relay_state)]))%list
-      | None => Err (EOther "unknown URL expression")
-      end
-  | _, _ => Err (EOther "no such template")
+  match nth_error (templates_of k) idx with
+  | Some t =>
+      render t ([("URL", endpoint k cfg); (message_field k, encoded)] ++
+                (if relay_state =?s "" then [] else [("RelayState", relay_state)]))%list
+  | None => Err (EOther "no such template")
+  end.
+
+(* the same on the RESULT of doc.WriteToBytes(): a writer error is returned as it is *)
+Definition build_post_body_from (k : post_kind) (cfg : post_config) (relay_state : string) (written : res string) : res string :=
+  match written with Ok doc_bytes => build_post_body k cfg relay_state doc_bytes | Err e => Err e end.
+
+(* BuildAuthBodyPost: the signed or the unsigned AuthnRequest document (the results of BuildAuthRequestDocument /
+   BuildAuthRequestDocumentNoSig, documents of any representation D; [write] = Document.WriteToBytes) chosen by
+   sp.SignAuthnRequests; a builder error is returned as it is *)
+Definition build_auth_body_post {D : Type} (write : D -> res string) (cfg : post_config) (relay_state : string)
+    (sign_requests : bool) (signed unsigned : res D) : res string :=
+  match (if sign_requests then signed else unsigned) with
+  | Ok d => build_post_body_from PAuthn cfg relay_state (write d)
+  | Err e => Err e
   end.
 
 (* the literal text of a compiled template, and a page as literals with the holes filled *)
@@ -378,10 +396,6 @@ Definition post_page (k : post_kind) (action message : string) (relay : option s
         KEnd "script";
         KEnd "html"])%list
   end.
-
-(* the configured endpoint of each flow *)
-Definition endpoint (k : post_kind) (cfg : post_config) : string :=
-  match k with PAuthn => pc_sso_url cfg | _ => pc_slo_url cfg end.
 
 (* every byte is one url_normalize keeps (a '%' must be followed by two hex digits) *)
 Fixpoint url_all_kept (s : string) : bool :=
